@@ -121,7 +121,51 @@ fn one_text(re: &Regex, t: &str) -> Result<u64, String> {
     Ok(spans)
 }
 
+/// Thorough tier: the sanitizer slice (crate sanit/c05miri) interpreted by Miri, 8 shards.
+/// Returns (status, operations, spans, first report).
+fn miri_slice() -> (String, u64, u64, String) {
+    use std::process::{Command, Stdio};
+    let root = verif_dir();
+    let dir = format!("{}/sanit/c05miri", root);
+    let target = format!("{}/target-miri", root);
+    let warm = Command::new("cargo").args(["+nightly", "miri", "run", "--target-dir", &target, "--", "99", "100"]).current_dir(&dir).env("MIRIFLAGS", "-Zmiri-disable-isolation").env("CARGO_NET_OFFLINE", "true").stdout(Stdio::piped()).stderr(Stdio::piped()).output();
+    match warm {
+        Ok(o) if o.status.success() => {}
+        Ok(o) => return ("unavailable (miri build/run failed)".into(), 0, 0, String::from_utf8_lossy(&o.stderr).lines().rev().take(5).collect::<Vec<_>>().join(" | ")),
+        Err(e) => return (format!("unavailable ({})", e), 0, 0, String::new()),
+    }
+    let n = 8;
+    let kids: Vec<_> = (0..n)
+        .map(|i| Command::new("cargo").args(["+nightly", "miri", "run", "--target-dir", &target, "--", &i.to_string(), &n.to_string()]).current_dir(&dir).env("MIRIFLAGS", "-Zmiri-disable-isolation").env("CARGO_NET_OFFLINE", "true").stdout(Stdio::piped()).stderr(Stdio::piped()).spawn())
+        .collect();
+    let (mut ops, mut spans) = (0u64, 0u64);
+    let mut status = "ok".to_string();
+    let mut report = String::new();
+    for k in kids {
+        let Ok(k) = k else {
+            status = "unavailable (spawn failed)".into();
+            continue;
+        };
+        let Ok(o) = k.wait_with_output() else { continue };
+        let out = String::from_utf8_lossy(&o.stdout).to_string();
+        let err = String::from_utf8_lossy(&o.stderr).to_string();
+        if let Some(l) = out.lines().find(|l| l.starts_with("c05miri shard")) {
+            let nums: Vec<u64> = l.split(|c: char| !c.is_ascii_digit()).filter_map(|x| x.parse().ok()).collect();
+            if nums.len() >= 4 {
+                ops += nums[nums.len() - 2];
+                spans += nums[nums.len() - 1];
+            }
+        }
+        if !o.status.success() {
+            status = if err.contains("Undefined Behavior") || err.contains("panicked") { "violated".into() } else { "error".into() };
+            report = err.lines().filter(|l| l.contains("error") || l.contains("panicked") || l.contains("Undefined")).take(6).collect::<Vec<_>>().join(" | ");
+        }
+    }
+    (status, ops, spans, report)
+}
+
 pub fn run(ctx: &Ctx) -> Outcome {
+    let miri = if ctx.tier == Tier::Thorough { Some(std::thread::spawn(miri_slice)) } else { None };
     let sp = spaces::unrestricted(ctx.tier, ctx.seed, 4, 4, 3_000, 60_000);
     let texts = spaces::texts_mb(ctx.tier.pick(3, 4));
     let cfg = SweepCfg { prop: "C05", backtrack_limit: Some(20_000), step_cap: Some(3_000_000), shadow: true };
@@ -147,12 +191,24 @@ pub fn run(ctx: &Ctx) -> Outcome {
             acc.sample(2, || json!({"pattern": c.pattern, "route": if c.route.is_vm() {"vm"} else {"wrapped"}}));
         }
     });
+    let mut acc = acc;
+    let mut miri_json = json!("not run in the quick tier");
+    if let Some(h) = miri {
+        let (status, ops, spans, report) = h.join().unwrap_or(("unavailable (thread panicked)".into(), 0, 0, String::new()));
+        if status == "violated" {
+            let mut v = Violation::new("C05", "miri-slice", "sanit/c05miri", "", 0, "cargo +nightly miri run", "no undefined behaviour, no panic, valid spans".into(), report.clone());
+            v.note = "re-run: cd /verif/sanit/c05miri && MIRIFLAGS=-Zmiri-disable-isolation cargo +nightly miri run -- 0 1".into();
+            acc.violate(v);
+        }
+        acc.evals += ops;
+        miri_json = json!({"status": status, "operations": ops, "spans_validated": spans, "report": report});
+    }
     let mut out = Outcome::new(acc);
     out.distinct_nontrivial = out.acc.distinct;
     out.rule = format!("{}; x all {} texts over {{a, é(2 bytes), €(3), 😀(4), \\n}} up to length {} x every char-boundary start offset x captures_from_pos, find_from_pos, is_match, find, find_iter, captures_iter, split, splitn(0,1,2,max), try_replacen/replacen/replace/replace_all with a template, NoExpand and a closure; every call under catch_unwind with overflow checks and debug assertions compiled into fancy-regex; every reported span validated, then Match::as_str, Index and expand executed. Runs use backtrack_limit 20000 and a VM step cap (cap hits are inconclusive cases). Non-trivial: distinct patterns that reported valid spans on a text containing multi-byte characters.", sp.describe, texts.len(), ctx.tier.pick(3, 4));
     out.assumptions = vec!["Err(RuntimeError) is an allowed outcome; replace/replacen/replace_all are only called where try_replacen succeeded (they are documented to panic on runtime errors)".into()];
     let (vm, wr, spans) = (out.acc.get("route:vm"), out.acc.get("route:wrapped"), out.acc.get("valid-spans-checked"));
-    out.extra = json!({"routes": {"vm": vm, "wrapped": wr}});
+    out.extra = json!({"routes": {"vm": vm, "wrapped": wr}, "miri_slice": miri_json});
     out.require(vm > 0 && spans > 0, "no VM-route spans were checked");
     let inc = out.acc.inconclusive;
     let ev = out.acc.evals;
